@@ -42,10 +42,10 @@ Print Assumptions C14_terminal_never_left.
 (* ids are unique across all five stores (active, passed, failed, finalized, finalize-failed): along every history an
    id that has ever been created is never accepted by PROPOSAL_CREATE again — any sender, any parameters, any later
    state — and a successful create always concerns an id that no store holds *)
-Theorem C14_id_never_created_twice : forall ts1 ts2 id ty pr amt fdl vdl goal pass cv e payer fee,
+Theorem C14_id_never_created_twice : forall ts1 ts2 id ty pr amt fdl vdl goal pass cv e payer fee cur,
   (1 <= rank_of (run init ts1).1 id)%nat ->
   let s := (run (run init ts1).1 ts2).1 in
-  step s (mkTx (OCreate id ty pr amt fdl vdl goal pass cv) e payer fee) = (s, false, []).
+  step s (mkTx (OCreate id ty pr amt fdl vdl goal pass cv) e payer fee cur) = (s, false, []).
 Proof. exact id_never_created_twice. Qed.
 Print Assumptions C14_id_never_created_twice.
 
@@ -56,7 +56,7 @@ Proof. exact create_only_fresh. Qed.
 (* witness environment: one validator (account 10, power 100) *)
 Definition wopts : opts := mkOpts 1 10 5 51 (mkDist 180000 180000 100000 180000 180000) (mkDist 180000 180000 100000 180000 180000).
 Definition wenv : env := mkEnv wopts wopts wopts [(10%N, 100)] [10%N] 13%N 14%N [].
-Definition wtx (o : op) (_ : list (N * N)) : txop := mkTx o wenv 0%N 0.
+Definition wtx (o : op) (_ : list (N * N)) : txop := mkTx o wenv 0%N 0 0%N.
 
 (* an honest life of a configuration proposal up to its automatic finalisation *)
 Definition w_life (keep : list (N * N)) : list txop :=
@@ -92,7 +92,7 @@ Example C14_finalize_failed_terminal :
   let ts := [wtx (OAdjust 1%N 100) []; wtx (OAdjust 2%N 100) [];
              wtx (OBegin 1) []; wtx (OCreate 0%N TConfig 1%N 5 5 10 10 51 true) []; wtx (OFund 0%N 2%N 5) []; wtx OEnd [];
              wtx (OBegin 2) []; wtx (OVote 0%N 10%N OpYes) []; wtx OEnd [];
-             wtx (OBegin 3) []; mkTx OEnd fenv 0%N 0; wtx (OBegin 4) []] in
+             wtx (OBegin 3) []; mkTx OEnd fenv 0%N 0 0%N; wtx (OBegin 4) []] in
   let s := (run init ts).1 in
   (fun p => (p_store p, p_total p)) <$> (g_props s !! 0%N) = Some (SFinFailed, 10) /\
   (run init ts).2 = [EvContrib 0 1 5; EvContrib 0 2 5] /\ g_applied s = [] /\
@@ -188,7 +188,7 @@ Print Assumptions C14_config_only_when_votes_pass.
    update is applied once and it sits in one store only *)
 Definition wopts80 : opts := mkOpts 1 10 5 80 (mkDist 180000 180000 100000 180000 180000) (mkDist 180000 180000 100000 180000 180000).
 Definition wenv3 (o : opts) : env := mkEnv o o o [(10%N, 100); (11%N, 100); (12%N, 100)] [10%N; 11%N; 12%N] 13%N 14%N [].
-Definition wtx3 (o : opts) (x : op) : txop := mkTx x (wenv3 o) 0%N 0.
+Definition wtx3 (o : opts) (x : op) : txop := mkTx x (wenv3 o) 0%N 0 0%N.
 Definition w_drift : list txop :=
   [wtx3 wopts (OAdjust 1%N 100); wtx3 wopts (OAdjust 2%N 100);
    wtx3 wopts (OBegin 1); wtx3 wopts (OCreate 0%N TConfig 1%N 5 5 10 10 51 true); wtx3 wopts (OFund 0%N 2%N 5); wtx3 wopts OEnd;
@@ -321,3 +321,10 @@ Example C14_relaunch_keeps_partial_votes :
   let s3 := (hrun s2 [HOp (t (OBegin 1)); HOp (t (OVote 0%N 12%N OpYes)); HOp (t OEnd); HOp (t (OBegin 2)); HOp (t OEnd)]).1 in
   (fun p => (p_store p, p_outcome p)) <$> (g_props s3 !! 0%N) = Some (SFinalized, OCompletedYes).
 Proof. vm_compute. repeat split; reflexivity. Qed.
+
+(* ---- (8) the fund store is denominated in OLT: a create / fund / withdraw whose amount names any other currency (a
+   registered one the sender really owns, an unknown name, the empty string) is refused and changes nothing ---- *)
+Theorem C14_non_olt_refused : forall s t, t_cur t <> 0%N ->
+  match t_op t with OCreate _ _ _ _ _ _ _ _ _ | OFund _ _ _ | OWithdraw _ _ _ _ => step s t = (s, false, []) | _ => True end.
+Proof. exact non_olt_refused. Qed.
+Print Assumptions C14_non_olt_refused.
